@@ -23,6 +23,15 @@ CHECKS = {
         design_ref="DESIGN.md §4 C18",
         note="Trusts networkx graph views as ground truth for what the lineage graph contains.",
     ),
+    "C03": dict(
+        technique="history monitor: relational role model replayed over observed per-statement facts, real SQLLineageHolder.of called on every prefix",
+        category="exploration",
+        text="All histories up to the length bound over a 40-statement abstract catalog (parsed once by the real analyzers) are folded by the real "
+             "SQLLineageHolder.of at every prefix and compared with the set of role-model states the property allows; random SQL scripts are run "
+             "end to end through LineageRunner prefix by prefix.",
+        design_ref="DESIGN.md §4 C03",
+        note="DROP of an unwired table and tag/self-loop inheritance on RENAME are relational (either outcome accepted); facts come from the statement tap.",
+    ),
     "C15": dict(
         technique="controlled-scheduler history monitor: real threads gated per step (and at sys.monitoring LINE events), per-thread sequential model",
         category="exploration",
